@@ -68,16 +68,19 @@ Proof.
   destruct (k_mode k); [reflexivity | reflexivity|]. apply andb_true_iff in Hm as [-> _]. reflexivity.
 Qed.
 
-(* the rooted part of the filter of c01_moving_lib_roots_partial is contained in the new filter *)
-Lemma c01_wild_thm_scope_sup k : match k_mode k with LNone => False | _ => True end ->
-  c01_roots_thm_scope k = true -> c01_wild_thm_scope k = true.
+(* the filter of c01_moving_lib_roots_partial / c01_discovery_roots_partial is contained in the new filter *)
+Lemma c01_wild_thm_scope_sup k : c01_roots_thm_scope k = true -> c01_wild_thm_scope k = true.
 Proof.
   unfold c01_roots_thm_scope, c01_wild_thm_scope, c01_wild_disc_thm_scope, filt_nu.
-  destruct (k_mode k) as [r0|r0|] eqn:Em; intros Hnd H; [| |destruct Hnd].
+  destruct (k_mode k) as [r0|r0|] eqn:Em; intros H.
   - apply andb_true_iff in H as [Hf Hsc]. pose proof Hf as Hf'. apply andb_true_iff in Hf' as [Hnew Hundo].
     destruct (c01_wild_mono_subsumes_proved (k_cfg k) r0 (LExcl r0) (k_hist k) (or_introl eq_refl) Hnew Hundo Hsc) as (Hwf & Hr0 & Hmono).
     rewrite Hf, Hwf, Hmono. apply N.eqb_neq in Hr0. rewrite Hr0. reflexivity.
   - apply andb_true_iff in H as [Hf Hsc]. pose proof Hf as Hf'. apply andb_true_iff in Hf' as [Hnew Hundo].
     destruct (c01_wild_mono_subsumes_proved (k_cfg k) r0 (LIncl r0) (k_hist k) (or_intror eq_refl) Hnew Hundo Hsc) as (Hwf & Hr0 & Hmono).
     rewrite Hf, Hwf, Hmono. apply N.eqb_neq in Hr0. rewrite Hr0. reflexivity.
+  - apply andb_true_iff in H as [H Hsc]. apply andb_true_iff in H as [H Hf]. apply andb_true_iff in H as [Hh Hi].
+    pose proof Hf as Hf'. apply andb_true_iff in Hf' as [Hnew Hundo]. pose proof Hi as Hi'. apply negb_true_iff in Hi'.
+    destruct (c01_wild_discovery_mono_subsumes_proved (k_cfg k) (k_hist k) Hh Hi' Hnew Hundo Hsc) as (Hwf & Hmono).
+    rewrite Hf, Hwf, Hmono, Hh, Hi. reflexivity.
 Qed.
